@@ -41,6 +41,14 @@ CLAIMS = {
   text="Lean 4 theorems over symbolic terms (ideal MAC / JWE): everything the EDV formatter hands to the provider for one Put is opaque for every key, value, tag list and both id modes (C12_format_opaque), so are the Key tag of the non-deterministic mode, query expressions and store configurations; any history of provider calls built from these is opaque as a whole (C12_history_opaque, induction over the call list); equal plaintexts give different ciphertext terms (C12_fresh). Tie: the real formattedstore + EncryptedFormatter over a recording provider - every argument of every call is mapped back to a symbolic term with the harness's own keys and judged by the same Opaque predicate (an unexplained argument is a plaintext atom), and every recorded byte string is scanned for every application plaintext in five encodings",
   note="trusted: Lean kernel; allowed axioms; HMAC / JWE ideal; the harness's recogniser; store names excluded as the property states; call SEQUENCES of formattedstore are not predicted by the model (the opacity of each argument is)",
   technique="Lean 4 opacity proof over symbolic terms + recording-provider correspondence and plaintext scan"),
+ "C05": dict(
+  text="Lean 4 theorems over symbolic terms: the term every store write consists of (keyset under the envelope AEAD + public keyset info) and everything the API returns (thumbprint / random / named id, public key) is opaque w.r.t. key material, for every history of calls (C05_history_opaque); the master key is only held under the passphrase-derived lock (C05_lock); nothing is usable through a key manager opened with another master key (C05_wrong_master). Tie: real localkms + local secret lock (raw / HKDF / PBKDF2) over a recording store: per-call success predicted by the model, every stored value and every API return scanned for every private / symmetric key byte string and the master key in five encodings, wrong master key / passphrase must fail on every id",
+  note="trusted: Lean kernel; allowed axioms; Tink keyset encryption / AES-GCM / KDFs ideal; the harness obtains the secret bytes through Tink's cleartext export and protobuf field numbers",
+  technique="Lean 4 opacity proof + recording-store scan correspondence"),
+ "C06": dict(
+  text="Lean 4 theorems with every key manager call as a list of storage steps and a crash as a prefix: Create / Import never destroy another key at any crash point (C06_put_durable); the key material usable before a Rotate is retrievable after ANY prefix of its storage steps, under the old id until it is deleted and under the new id afterwards (C06_rotate_durable), other keys are untouched (C06_rotate_other); the id of a created asymmetric key depends on the key alone (C06_kid_pure); the repaired defect C06-F1 as a decide-checked loss under the old step order. Tie: real localkms over a store that freezes after the k-th mutating call of the last operation (all crash points), then a fresh key manager over the surviving store probes every key; ids compared with the thumbprint of the exported public key; the model predicts every call result and probe",
+  note="trusted: Lean kernel; allowed axioms; Tink ideal; did:key round trip of kids is part of C16; open finding C06-F2 (ImportPrivateKey without id returns a random id)",
+  technique="Lean 4 crash-prefix durability proof + freezing-store / reopen correspondence"),
 }
 
 def main():
